@@ -388,15 +388,16 @@ func stride(t *smt.Term, depth int) (step, phase uint64) {
 	switch t.Op {
 	case smt.OpMul:
 		if t.B.IsConst() && t.B.V > 0 {
+			if t.B.V&(t.B.V-1) == 0 {
+				return t.B.V, 0 // multiples of a power of two stay multiples modulo 2^64
+			}
 			if _, h := urange(t.A, 0); h <= (^uint64(0))/t.B.V {
 				return t.B.V, 0
 			}
 		}
 	case smt.OpShl:
 		if t.B.IsConst() && t.B.V < 32 {
-			if _, h := urange(t.A, 0); h <= (^uint64(0))>>t.B.V {
-				return uint64(1) << t.B.V, 0
-			}
+			return uint64(1) << t.B.V, 0
 		}
 	case smt.OpAdd:
 		s1, p1 := stride(t.A, depth+1)
